@@ -65,6 +65,7 @@ class Model:
             self.timer.time = self.timer.step2time(self.timer.step)
             self.release.update()
             self.force.update()
+            self.output.update()  # Initial record, skipped by default
             self.tracker.update()
             self.ibm.update()
 
